@@ -22,7 +22,8 @@ EXPLANATION = (
     "built; (e) get_data, get_context and get_data_context split a value by the one predicate _has_context, which recognises a pair "
     "with isinstance (subclasses of dict are contexts); (f) no closure created in a loop of the variables module captures a "
     "per-iteration name by reference, and the conditions of _update_context read the keys type/compose/variable only; (g) the list of "
-    "composed types is extended with a list (the applied variable's compose list) and appended a single type name.  Does not decide the nested-dictionary values (that compose lists types in order for all chains).")
+    "composed types is extended with a list (the applied variable's compose list) and appended a single type name; (h) no function or lambda nested in the variables module changes an object it captured from "
+    "the call that created it (getters are functions of the value, without memo).  Does not decide the nested-dictionary values (that compose lists types in order for all chains).")
 RULES = {
     "C14-a": "FOLD: Compose getter/context and Combine getter iterate self._vars forwards, threading the value",
     "C14-b": "FRESH: every var_context given to _update_context / stored in combine is a per-call deepcopy; __call__ does not write self",
@@ -33,6 +34,8 @@ RULES = {
              "subclasses of tuple/dict (isinstance, not an exact-type test)",
     "C14-f": "no getter built in a loop captures the loop's variable by reference (late binding: every such closure would use the last "
              "variable); whether _update_context composes is decided by the presence of types only, never by names",
+    "C14-h": "PURE GETTER: no function nested in the variables module changes what it captured from the call that created it "
+             "(a getter with a memo returns the result of an earlier value for an object that was changed in place)",
     "C14-g": "KIND: the list of composed types is extended with a list (the applied variable's own compose list) and appended a single "
              "type; a type name (a string) is never handed to extend(), which would add its characters",
 }
@@ -134,6 +137,8 @@ def check_fold(ctx):
                 and len(ge.elt.args) == 1 and A.src(ge.elt.args[0]) == p
             ctx.check("C14-a", ok, lam, "Combine getter is not tuple(var.getter(val) for var in self._vars)",
                       detail="Combine getter applies every getter to the value, in order", construct="combine-getter")
+    if not found and any(A.enclosing_func(x[0]) is not None for x in K.closure_mutations(cinit)):
+        return      # reported by C14-h: the getter keeps state, its shape is not the point any more
     ctx.require(found, "C14-a", cinit, "Combine getter not recognised")
 
 
@@ -671,7 +676,29 @@ def check_compose_kinds(ctx):
     ctx.instances_floor("C14-g", n, 2, "growth sites of the compose list in _update_context")
 
 
+def check_pure_getters(ctx):
+    """Combine/Compose/Variable build their getters once, in __init__, and apply them to every value of the flow.  A getter is
+    documented as a function of the value: a list or dictionary of the creating call that the getter fills is a memo keyed by
+    history -- the same (mutable) event object read twice after an in-place change gives the first answer."""
+    mod = ctx.tree.module(VAR)
+    n = n_inner = 0
+    for m, fn in ctx.tree.functions():
+        if m is not mod or A.enclosing_func(fn) is not None:
+            continue
+        n += 1
+        n_inner += sum(1 for x in ast.walk(fn) if isinstance(x, (ast.Lambda, ast.FunctionDef)) and x is not fn)
+        for inner, name, node, how in K.closure_mutations(fn):
+            ctx.violation("C14-h", node, "%s, created in %s, %s -- a variable of the creating call: every application of the function "
+                          "shares it, so the result for a value depends on the values seen before (an event object refilled in place "
+                          "gets the tuple computed for its previous content)" % (
+                              "the lambda" if isinstance(inner, ast.Lambda) else "`%s`" % inner.name, A.qualname(fn), how),
+                          construct="getter-state:%s:%s" % (A.qualname(fn), name))
+    ctx.instances_floor("C14-h", n_inner, 2, "functions nested in the variables module")
+    ctx.ok("C14-h", (VAR, "<module>"), "%d nested functions/lambdas of %d functions change nothing they captured" % (n_inner, n))
+
+
 def check(ctx):
+    check_pure_getters(ctx)
     ctx.instances_floor("C14-e/isinstance", K.check_isinstance_dispatch(ctx, "C14-e", ["lena.flow.functions", "lena.variables.variable", "lena.context.functions", "lena.context.context"], "lena.context.Context, OrderedDict as a context; a subclass of Variable"), 10, "isinstance tests in the value and variable helpers")
     check_compose_kinds(ctx)
     check_closures_and_guard(ctx)
@@ -684,6 +711,10 @@ def check(ctx):
 
 
 VARIANTS = [
+    M("combine-getter-memo", "lena/variables/variable.py", "        getter = lambda val: tuple(var.getter(val) for var in self._vars)\n",
+      "        last = []\n        def getter(val):\n            if last and last[0] is val:\n                return last[1]\n            res = tuple(var.getter(val) for var in self._vars)\n            last[:] = (val, res)\n            return res\n", ["C14-h"]),
+    M("combine-getter-memo-dict", "lena/variables/variable.py", "        getter = lambda val: tuple(var.getter(val) for var in self._vars)\n",
+      "        seen = {}\n        getter = lambda val: seen.setdefault(id(val), tuple(var.getter(val) for var in self._vars))\n", ["C14-h"]),
     M("compose-extended-with-type-name", "lena/variables/variable.py", "                cvar[\"compose\"].extend(var_context[\"compose\"])", "                cvar[\"compose\"].extend(cur_type)", ["C14-g"]),
     M("compose-late-binding", "lena/variables/variable.py", "        def getter(value):\n            for var in self._vars:\n                value = var.getter(value)\n            return value\n", "        getter = args[0].getter\n        for var in args[1:]:\n            getter = lambda value, inner=getter: var.getter(inner(value))\n", ["C14-f"]),
     M("compose-skipped-for-same-name", "lena/variables/variable.py", "        if cvar and (\"type\" in cvar):", "        same_var = bool(cvar) and cvar.get(\"name\") == var_context.get(\"name\")\n        if cvar and (\"type\" in cvar) and not same_var:", ["C14-f"]),
